@@ -13,7 +13,9 @@ O = Oracle()
 TXN = {'description': 'Netflix.COM 0012 ab', 'amount': 15.5, 'date': date(2025, 3, 9), 'field': {'kind': 'Wire', 'code': 'AB-12-cd', 'pad': '  x  '}, 'source': 'Amex'}
 ROWS = {'orders': [{'id': '77', 'item': 'Cable', 'qty': 2, 'amount': 15.5}, {'id': '78', 'item': 'Mouse', 'qty': 1, 'amount': 20.0}, {'id': '79', 'item': 'cable', 'qty': 5, 'amount': 3.0}],
         'refunds': [{'id': '78', 'amount': 20.0}, {'id': '90', 'amount': 15.5}], 'empty': [],
-        'dated': [{'day': date(2025, 3, 10), 'iso': '2025-03-10', 'kind': 'ach'}, {'day': date(2025, 3, 9), 'iso': '2025-03-09', 'kind': 'WIRE'}]}
+        'dated': [{'day': date(2025, 3, 10), 'iso': '2025-03-10', 'kind': 'ach'}, {'day': date(2025, 3, 9), 'iso': '2025-03-09', 'kind': 'WIRE'}],
+        # the second row's date was never filled in: comparing it with a date cannot be evaluated
+        'mixed': [{'day': date(2025, 3, 9), 'n': 1}, {'day': 'pending', 'n': 2}]}
 VARS = {'big': True, 'lim': 10, 'label': 'Net', 'zero': 0}
 
 
@@ -175,6 +177,9 @@ TABLE = [
     # ... also when the comprehension could not be evaluated and exists() went on after the failure: the loop variable is gone, the primitive it hid is back
     ('exists([amount.nope for amount in orders]) or amount == 15.5', True), ('(not exists([lim.nope for lim in orders])) and lim == 10', True),
     ('exists([o.qty for o in orders for amount in refunds if amount.nope]) or amount == 15.5', True),
+    # any() / all() / next() stop at the first element that decides, like Python's: an element after it that cannot be evaluated is never looked at
+    ('any(r.day == date for r in mixed)', True), ('all(r.day != date for r in mixed)', False), ('next(r.n for r in mixed if r.day == date)', 1),
+    ('any((hit := r).n == 1 for r in mixed) and hit.n == 1', True),
     # an optional group that takes no part in the match: extract() returns text ("empty string if no match or no capture group"), never None
     ('extract("COM(X)?")', ''), ('extract("COM(X)?") == ""', True), ('extract(field.code, "AB(-99)?")', ''), ('extract("COM( \\d+)?")', ' 0012'),
     ('"a" in [r.id for r in empty]', False), ('field.kind in [r.kind for r in dated]', True), ('field.kind not in [r.kind for r in dated]', False),
